@@ -1,6 +1,47 @@
 """C03 - float arithmetic honours the documented rounding contract of its mode."""
+import os
+import sys
 import core
 from core import hx
+
+# round 3: the fragments behind the theorems about operands longer than the precision, the square root of a cut
+# radicand and Context::rem are regenerated into coq/gen/FloatLongParams.v when this plug-in is imported, i.e. before
+# the proof phase of every run (tools/check.py has no hook between plug-in load and the Coq build; tools/translate.py
+# is shared).  Unparseable source is not an alarm: the previous copy stays (marked STALE), the status is reported in
+# the evidence by extra_phase, and the correspondence run alone ties the models.
+sys.path.insert(0, os.path.join(core.ROOT, "tools"))
+try:
+    import translate_c03_r3
+    LONG_PARAMS_STATUS = translate_c03_r3.generate(core.REPO, os.path.join(core.COQ, "gen"))
+except Exception as _ex:  # the generator itself broke: same fallback as an unparseable source
+    LONG_PARAMS_STATUS = "unparsed generator-failed: %s" % str(_ex)[:200]
+
+# a run against a scratch checkout that shares the Coq tree must not leave its fragment behind for other builds
+if os.path.realpath(core.REPO) != os.path.realpath("/repo") and "VERIF_COQ" not in os.environ:
+    import atexit
+
+    def _restore_fragment():
+        try:
+            translate_c03_r3.generate("/repo", os.path.join(core.COQ, "gen"))
+        except Exception:
+            pass
+
+    atexit.register(_restore_fragment)
+
+
+def extra_phase(tier, seed, exes, oracle):
+    word = LONG_PARAMS_STATUS.split(" ", 1)[0]
+    return {
+        "evaluations": 0,
+        "hist": {"translator_c03_r3:FloatLongParams:" + word: 1},
+        "nontrivial": [],
+        "samples": [{"fragment": "coq/gen/FloatLongParams.v (tools/translate_c03_r3.py from float/src/mul.rs, root.rs, div.rs, add.rs)",
+                     "status": LONG_PARAMS_STATUS,
+                     "tied_by": "C03_long_source_constants" if word == "ok"
+                                else "correspondence run only (source not parsed; previous copy marked STALE)"}],
+        "failures": [],
+    }
+
 
 ID = "C03"
 READY = True
@@ -260,6 +301,11 @@ def valid(text):
     if t[0].startswith("mulp_") or t[0].startswith("divp_"):
         # each operand fits the precision of its own context
         return len(t) == 9 and p >= 1 and int(t[8], 16) >= 1 and ndigits(core.unhx(t[4]), b) <= p and ndigits(core.unhx(t[6]), b) <= int(t[8], 16)
+    if t[0] in LONG_OPS or t[0] == "rem":
+        # round 3: the Context methods take any Repr - operands of any length
+        return p >= 1 and len(t) in (6, 8)
+    if t[0].startswith("addprim_") or t[0].startswith("subprim_"):
+        return len(t) == 8 and p >= 1 and t[7] == "0" and ndigits(core.unhx(t[4]), b) <= p
     if t[0].startswith("mulprim_") or t[0].startswith("divprim_"):
         # the primitive operand gets the precision of its own digit count
         return len(t) == 8 and p >= 1 and t[7] == "0" and ndigits(core.unhx(t[4]), b) <= p
@@ -349,6 +395,157 @@ def gen_prim(rng, tier, b, p):
     return fmt(op, b, rng.choice(MODES), p, rng.choice([1, -1]) * s1, e1, rng.choice([1, -1]) * n, 0)
 
 
+LONG_OPS = ("addl", "subl", "mull", "divl", "sqrl", "cubicl", "sqrtl", "invl")
+
+
+def gen_long_addsub(rng, tier, b, p):
+    """Context::add / sub with operands LONGER than the precision (round 3): every alignment branch with an over-long
+    operand on either side, and effective subtractions that cancel to a few digits (finding add_overlong_cancellation)"""
+    lens = [1, p, p + 1, p + 2, 2 * p, 2 * p + 1, 3 * p + 2]
+    d1, d2 = rng.choice(lens), rng.choice(lens)
+    if d1 <= p and d2 <= p:
+        d2 = p + rng.choice([1, 2, p, 2 * p + 1])
+    s1, s2 = gen_sig(rng, b, d1), gen_sig(rng, b, d2)
+    e1 = rng.choice([0, 1, -1, 5, -7, 40, -40])
+    gap = max(0, rng.choice([0, 1, 2, p - 1, p, p + 1, d2, d2 + 1, d2 + 2, d2 + 3, p + d2, p + d2 + 2, d1, d1 + p, 2 * p + 5, 3 * p + d2 + 4]))
+    e2 = e1 - gap
+    sg1, sg2 = rng.choice([1, -1]), rng.choice([1, -1])
+    op = rng.choice(["addl", "subl"])
+    k = rng.below(10)
+    if k < 4:
+        # cancellation: the low operand is (almost) the high one shifted, so the aligned sum is 0, +-1, a few units
+        gap = rng.choice([1, 2, p, p + 1, p + 2, 2 * p + 1])
+        e2 = e1 - gap
+        t = rng.choice([1, 1, 2, b - 1, b, b + 1, b ** max(1, gap - 1) - 1, b ** gap - 1, b ** gap + 1, rng.range(1, b ** gap)])
+        s2 = s1 * b ** gap + rng.choice([1, -1]) * t
+        if s2 <= 0:
+            s2 = s1 * b ** gap + t
+        # effective subtraction
+        sg2 = sg1 if op == "subl" else -sg1
+    elif k == 4:
+        s1 = 0 if rng.chance(1, 2) else s1
+        if s1 != 0:
+            s2 = 0
+    if rng.chance(1, 2):
+        s1, e1, s2, e2 = s2, e2, s1, e1
+    return fmt(op, b, rng.choice(MODES), p, sg1 * s1, e1, sg2 * s2, e2)
+
+
+def gen_long_muldiv(rng, tier, b, p):
+    """mul / sqr / cubic / div / inv at the pre-shrinking thresholds 2p, 3p, p + digits(rhs) -1/0/+1 and beyond"""
+    k = rng.below(10)
+    m = rng.choice(MODES)
+    e1 = rng.choice([0, 1, -3, 17, -300])
+    e2 = rng.choice([0, -1, 4, -17, 299])
+    if k < 3:
+        d1 = rng.choice([p + 1, 2 * p - 1, 2 * p, 2 * p + 1, 2 * p + 2, 3 * p + 1])
+        d2 = rng.choice([1, p, p + 1, 2 * p, 2 * p + 1])
+        s1, s2 = gen_sig(rng, b, max(1, d1)), gen_sig(rng, b, d2)
+        if rng.chance(1, 2):
+            s1, s2 = s2, s1
+        return fmt("mull", b, m, p, rng.choice([1, -1]) * s1, e1, rng.choice([1, -1]) * s2, e2)
+    if k < 5:
+        d1 = rng.choice([p + 1, 2 * p - 1, 2 * p, 2 * p + 1, 2 * p + 2, 4 * p])
+        return fmt("sqrl", b, m, p, rng.choice([1, -1]) * gen_sig(rng, b, max(1, d1)), e1)
+    if k < 7:
+        d1 = rng.choice([p + 1, 3 * p - 1, 3 * p, 3 * p + 1, 3 * p + 2, 5 * p])
+        return fmt("cubicl", b, m, p, rng.choice([1, -1]) * gen_sig(rng, b, max(1, d1)), e1)
+    if k < 9:
+        d2 = rng.choice([1, 2, p, p + 1, 2 * p + 1])
+        d1 = max(1, p + d2 + rng.choice([-1, 0, 1, 2, p]))
+        s1, s2 = gen_sig(rng, b, d1), gen_sig(rng, b, d2)
+        if rng.chance(1, 4):
+            s1 = s2 * gen_sig(rng, b, max(1, d1 - d2))      # exact quotient of an over-long dividend
+        return fmt("divl", b, m, p, rng.choice([1, -1]) * s1, e1, rng.choice([1, -1]) * s2, e2)
+    return fmt("invl", b, m, p, rng.choice([1, -1]) * gen_sig(rng, b, rng.choice([p + 1, 2 * p, 3 * p + 1])), e2)
+
+
+def gen_long_sqrt(rng, tier, b, p):
+    """Context::sqrt of a radicand longer than p: up to 2p digits it is scaled up, beyond that cut - perfect-square
+    prefixes with a zero / non-zero cut-off part, the exact tie (remainder = root and cut-off part = 1/4)"""
+    k = rng.below(8)
+    e1 = rng.choice([0, 1, -1, 2, -3, 17, -300, 301])
+    if k < 3:
+        d = rng.choice([p + 1, 2 * p - 1, 2 * p, 2 * p + 1, 2 * p + 2, 3 * p, 4 * p + 1])
+        s = gen_sig(rng, b, max(1, d))
+    else:
+        r = gen_sig(rng, b, p)
+        j = rng.choice([1, 2, 3, 4, p, 2 * p + 1])
+        bj = b ** j
+        if k == 3:
+            s = r * r * bj + rng.choice([0, 1, bj - 1, bj // 2])
+        elif k == 4:
+            s = (r * r + r) * bj + bj // 4 + rng.choice([0, 0, 1, -1])        # at / next to the tie
+        elif k == 5:
+            s = (r * r + r) * bj + rng.choice([0, 1, bj - 1])
+        elif k == 6:
+            s = (r * r + rng.choice([1, r - 1, r + 1, 2 * r])) * bj + rng.range(0, bj - 1)
+        else:
+            s = (r * r - 1) * bj + bj - 1                                      # just below a perfect square
+        e1 -= rng.choice([0, 1])
+    return fmt("sqrtl", b, rng.choice(MODES), p, max(s, 0), e1)
+
+
+def gen_rem(rng, tier, b, p):
+    """Context::rem, FBig % FBig, rem_euclid / div_euclid / div_rem_euclid: the three exponent cases, ties of the
+    nearest quotient, exact multiples, results longer than the precision, zero divisor"""
+    d1 = min(rng.choice([1, 2, max(1, p - 1), p, p]), p)
+    d2 = min(rng.choice([1, 1, 2, max(1, p - 1), p]), p)
+    s1, s2 = gen_sig(rng, b, d1), gen_sig(rng, b, d2)
+    e1 = rng.choice([0, 1, -3, 17, -40])
+    e2 = e1 + rng.choice([0, 0, 1, -1, 2, -2, p, -p, p + 2, -p - 2, 3 * p, -3 * p])
+    k = rng.below(8)
+    if k == 0 and s2 % 2 == 0:
+        s1 = (s2 // 2) * (2 * rng.range(0, b) + 1)       # quotient ends in .5 when the exponents agree
+        e2 = e1
+    elif k == 1:
+        s1 = s2 * rng.range(0, b ** min(p, 3))           # exact multiple
+    if rng.chance(1, 40):
+        s2 = 0
+    if rng.chance(1, 40):
+        s1 = 0
+    op = rng.choice(["rem", "rem", "rem", "rem", "rem", "rem", "rem_vv", "rem_vr", "rem_rv", "rem_rr", "rem_assign",
+                     "remeuc_vv", "remeuc_vr", "remeuc_rv", "remeuc_rr",
+                     "diveuc_vv", "diveuc_vr", "diveuc_rv", "diveuc_rr",
+                     "divremeuc_vv", "divremeuc_vr", "divremeuc_rv", "divremeuc_rr"])
+    if op == "rem" and rng.chance(1, 2):
+        # Context::rem takes any Repr: only a dividend longer than p can leave a remainder that has to be rounded
+        s1 = gen_sig(rng, b, rng.choice([p + 1, 2 * p, 2 * p + 3]))
+        if rng.chance(2, 3):
+            e2 = e1 + rng.choice([0, 1, 2, p])
+            s2 = gen_sig(rng, b, rng.choice([p, p + 1, 2 * p]))
+    return fmt(op, b, rng.choice(MODES), p, rng.choice([1, -1]) * s1, e1, rng.choice([1, -1]) * s2, e2)
+
+
+def gen_forms3(rng, tier, b, p):
+    """Inverse for FBig / &FBig, float (+|-) primitive / big integer in both orders"""
+    d1 = min(rng.choice([1, 2, max(1, p - 1), p, p]), p)
+    s1 = gen_sig(rng, b, d1)
+    e1 = rng.choice([0, 1, -3, 17, -300, 300])
+    if rng.chance(1, 5):
+        if rng.chance(1, 30):
+            s1 = 0
+        return fmt(rng.choice(["finv", "finv_r"]), b, rng.choice(MODES), p, rng.choice([1, -1]) * s1, e1)
+    k = rng.below(6)
+    if k == 0:
+        n = rng.range(0, 9)
+    elif k == 1:
+        n = b ** rng.range(0, 12) * rng.range(1, b)
+    elif k == 2:
+        n = rng.range(1, 1 << 62)
+    elif k == 3:
+        n = rng.range(1 << 63, 1 << 130)
+    else:
+        n = gen_sig(rng, b, rng.choice([1, 2, p, p + 1, 2 * p + 1]))
+    if rng.chance(1, 30):
+        n = 0
+    if rng.chance(1, 40):
+        s1 = 0
+    e1 = rng.choice([0, 1, -1, -3, 3, p, -p, 17, -40])
+    op = rng.choice(["addprim_fi", "addprim_if", "subprim_fi", "subprim_if"])
+    return fmt(op, b, rng.choice(MODES), p, rng.choice([1, -1]) * s1, e1, rng.choice([1, -1]) * n, 0)
+
+
 def gen_cases(rng, tier, n):
     out = []
     for c in gen_cases_raw(rng, tier, 2 * n + 100):
@@ -369,8 +566,22 @@ def gen_cases_raw(rng, tier, n):
         b = rng.choice(BASES)
         p = precisions(rng, tier)
         k = rng.below(100)
-        if k < 40:
+        if k < 29:
             out.append(gen_addsub(rng, tier, b, p))
+        elif k < 40:
+            # round 3 shares the budget of the addition cases
+            j = rng.below(12)
+            pl = rng.choice([1, 1, 2, 2, 3, 4, 5, 7, 10, 17])
+            if j < 3:
+                out.append(gen_long_addsub(rng, tier, b, pl))
+            elif j < 5:
+                out.append(gen_long_muldiv(rng, tier, b, pl))
+            elif j < 7:
+                out.append(gen_long_sqrt(rng, tier, b, pl))
+            elif j < 10:
+                out.append(gen_rem(rng, tier, b, p))
+            else:
+                out.append(gen_forms3(rng, tier, b, p))
         elif k < 53:
             out.append(gen_mul(rng, tier, b, p))
         elif k < 60:
